@@ -101,13 +101,13 @@ func main() {
 		}
 		cur.Store(int64(i))
 		startCPU.Store(int64(cpuNow()))
-		one(i, in, devnull)
+		one(i, in, devnull, startCPU.Load())
 		fmt.Fprintf(journal, "%d:cpu-ms %d\n", i, cpuSince(startCPU.Load()))
 	}
 	fmt.Fprintf(journal, "done\n")
 }
 
-func one(i int, in input, devnull *os.File) {
+func one(i int, in input, devnull *os.File, startCPU int64) {
 	entry := filepath.Join(in.Dir, "Taskfile.yml")
 	note(i, "unmarshal")
 	if b, err := os.ReadFile(entry); err == nil {
@@ -180,6 +180,11 @@ func one(i int, in input, devnull *os.File) {
 		}
 		if t.Watch || runs >= 12 {
 			continue // a watched task never returns by design
+		}
+		if cpuSince(startCPU) > 6000 {
+			// work budget per input (CPU time): Task's handling of call cycles costs seconds per
+			// run; one such run per input is enough
+			continue
 		}
 		runs++
 		note(i, "dry-run "+strconv.Quote(name))
